@@ -4,6 +4,7 @@
 #![allow(clippy::too_many_arguments, clippy::type_complexity, dead_code, unused_variables, unused_imports)]
 
 mod engine;
+mod c05;
 mod gen;
 mod lfu_suites;
 mod model;
@@ -120,6 +121,7 @@ fn main() {
             let out = match ctx.prop.as_str() {
                 "C01" | "C02" | "C03" | "C04" | "C06" | "C07" | "C08" | "C09" | "C10" | "C12"
                 | "C13" | "C14" | "C15" => engine_suite(&ctx),
+                "C05" => c05::c05_suite(&ctx),
                 "C11" => lfu_suites::c11_suite(&ctx),
                 "C20" => lfu_suites::c20_suite(&ctx),
                 other => {
@@ -131,6 +133,20 @@ fn main() {
                 println!("@@VIOLATION {}", found_json(f));
             }
             println!("@@SUMMARY {}", summary_json(&ctx, &out, t0.elapsed().as_secs_f64()));
+        }
+        "replay" if arg(&args, "--case").is_some() => {
+            let case = arg(&args, "--case").unwrap();
+            let mut out = ShardOut::default();
+            c05::ONLY_CASE.with(|o| *o.borrow_mut() = Some(case.to_string()));
+            c05::grid(&mut out);
+            let mut n = 0u64;
+            for f in &out.found {
+                if f.extra.get("case").map(|c| c == case).unwrap_or(false) {
+                    n += 1;
+                    println!("@@VIOLATION {}", found_json(f));
+                }
+            }
+            println!("@@REPLAY {}", J::obj().set("violations", J::U(n)).set("grid_cases", J::U(out.cov.monitored)));
         }
         "replay" if arg(&args, "--script").is_some() => {
             let prop = arg(&args, "--prop").unwrap_or("C11").to_string();
